@@ -110,7 +110,10 @@ class C10(C04):
             extra.append({"id": 0, "script": {"children": [dict(r.choice(CHILD_CLASSES))], "spawn_fail": [], "signal_fail": [], "kill_fail": []},
                           "ops": ops, "waiters": 1, "tail": 2000})
         extra += lanes_cases(r, 48 if tier == "quick" and not deep else 480)
-        return job_check(self, "thorough" if deep else tier, seed, monitor, extra)
+        c = job_check(self, "thorough" if deep else tier, seed, monitor, extra)
+        if not c.errors:
+            mt_check(c, "c10", seed, 24 if tier == "quick" and not deep else 300, mt_monitor_order)
+        return c
 
 
 PROP = C10()
